@@ -28,7 +28,30 @@ type c09Case struct {
 	Digits       int    `json:"digits"`
 	Algo         int    `json:"algo"`
 	Skew         int    `json:"skew"`
-	WinPos       int    `json:"window_position"` // which window code the wrong codes are derived from (-skew..skew)
+	WinPos       int    `json:"window_position"`    // which window code the wrong codes are derived from (-skew..skew)
+	Spelling     int    `json:"spelling,omitempty"` // how the submitted wrong codes are written, see c09Spellings
+}
+
+// c09Spellings: the wrong codes are also submitted in other digit spellings (one rune per digit) - a path that
+// "understands" them must not compare digit by digit either.
+var c09Spellings = []string{"ascii", "full-width digits", "arabic-indic digits", "persian digits", "devanagari digits", "ascii with the wrong digit in full-width", "ascii with the first digit in arabic-indic"}
+
+func c09Spell(code string, spelling, wrongPos int) string {
+	zero := []rune{'0', 0xFF10, 0x0660, 0x06F0, 0x0966}
+	var out []rune
+	for i, ch := range code {
+		switch {
+		case spelling >= 1 && spelling <= 4:
+			out = append(out, zero[spelling]+(ch-'0'))
+		case spelling == 5 && i == wrongPos:
+			out = append(out, zero[1]+(ch-'0'))
+		case spelling == 6 && i == 0:
+			out = append(out, zero[2]+(ch-'0'))
+		default:
+			out = append(out, ch)
+		}
+	}
+	return string(out)
 }
 
 const c09T = int64(1111111109)
@@ -171,6 +194,7 @@ func nonInterference(c c09Case, st *c09Stats) (obs, bad string, calls int) {
 		if w == "" {
 			continue
 		}
+		w = c09Spell(w, c.Spelling, j)
 		var verdict string
 		var tr []irt.Event
 		var pn string
@@ -281,6 +305,31 @@ func c09(r *ev.Run) {
 		}
 		if r.Violations() > 20 {
 			break
+		}
+	}
+	// the same classes with the wrong codes written in other digit spellings
+	for _, e := range entries {
+		for sp := 1; sp < len(c09Spellings); sp++ {
+			for _, d := range []int{6, 8} {
+				for _, s := range []int{0, 1} {
+					ok := false
+					for _, x := range e.skews {
+						ok = ok || x == s
+					}
+					for _, x := range e.digits {
+						if x == d && ok {
+							c := c09Case{Entry: e.name, Digits: d, Algo: (sp + d) % 3, Skew: s, WinPos: -s, AfterSuccess: sp%2 == 0, Spelling: sp}
+							obs, bad, n := nonInterference(c, st)
+							classes++
+							calls += int64(n)
+							perEntry[e.name]++
+							if bad != "" {
+								r.Fail("non-interference", fmt.Sprintf("%s digits=%d skew=%d codes written in %s: %s", e.name, d, s, c09Spellings[sp], bad), c, "all wrong codes rejected with identical traces", obs+" "+bad)
+							}
+						}
+					}
+				}
+			}
 		}
 	}
 	r.Eval(calls)
